@@ -398,7 +398,7 @@ func (g *gen) symbol() slip.Object {
 
 var safeSymbols = []string{"foo", "bar", "a", "x1", "car", "Foo", "FOO", "fooBar", "a-b", "*x*", "+", "-", "1+", "a.b", "...", "<=", "a:b", "$v", "%", "=", "~a", "^", "_",
 	"tt", "nile", ":key", ":Key", ":", ":1", "quote", "lambda", "u", "defun", "&rest", "a@b", "x/y"}
-var safePipeSymbols = []string{"a b", "a(b", "(", ")", "'", "a'b", "\"", ";", "a;b", "#", "a#", ",", "`", "a&b", "[", "]", "{", "}", "!", "a!", "A B", "Hello World", "x y z", ""}
+var safePipeSymbols = []string{"a b", "a(b", "(", ")", "'", "a'b", "\"", ";", "a;b", "#", "a#", ",", "`", "a&b", "[", "]", "{", "}", "!", "a!", "A B", "Hello World", "x y z", "", "123", "-5", "1.", "1e5", "1d0", "1/2", "2s3", "a|b", "|", "a\\b", "\\", "a\x01b", "a\tb", "x|y z", ":a b", ":(", ":a|b", "a?", "?", ".", "nil", "NIL", "Nil", "@2024-01-02", "@x"}
 
 func (g *gen) safeAtom() slip.Object {
 	r := g.rng()
@@ -443,17 +443,14 @@ func (g *gen) safeAtom() slip.Object {
 		return slip.String(sb.String())
 	case x < 70:
 		g.ctx.Hist("leaf:character")
-		for {
-			ch := g.scalar()
-			if ch == 0 || strings.ContainsRune("!\"$%&'();?[\\]`{}", ch) {
-				continue
-			}
-			return slip.Character(ch)
-		}
+		return slip.Character(g.scalar())
 	case x < 92:
 		g.ctx.Hist("symbol:safe")
-		if !c.pretty && r.Chance(30) {
+		if r.Chance(30) {
 			return slip.Symbol(common.Pick(r, safePipeSymbols))
+		}
+		if c.pcase == "none" && r.Chance(20) {
+			return slip.Symbol(common.Pick(r, []string{"é", "日本", "—x", "a é", "Ünï", "λ", "x日"}))
 		}
 		return slip.Symbol(common.Pick(r, safeSymbols))
 	case x < 96:
@@ -536,9 +533,6 @@ func (g *gen) object(depth int) slip.Object {
 		g.ctx.Hist("node:vector")
 		return slip.NewVector(n, slip.TrueSymbol, nil, l, r.Bool())
 	default:
-		if g.safe && (g.cfg.base != 10 || g.cfg.radix) {
-			return g.object(depth - 1)
-		}
 		rank := 2 + r.Intn(2)
 		dims := make([]int, rank)
 		for i := range dims {
@@ -824,6 +818,161 @@ func (g *gen) wireCase(o slip.Object) (term string, d caseDesc, ok bool) {
 	return term, d, true
 }
 
+type repairedCase struct {
+	id string
+	c  cfg
+	o  slip.Object
+}
+
+// repairedCases lists, per repaired finding, objects of the shape that used to fail together with the printer
+// configuration under which they failed; they are printed, read back and judged like every other pair.
+func repairedCases() (out []repairedCase) {
+	flat := cfg{base: 10, pcase: "down", margin: -1, readably: true, escape: true, array: true}
+	pretty := flat
+	pretty.pretty, pretty.margin = true, 80
+	with := func(c cfg, f func(c *cfg)) cfg { f(&c); return c }
+	// C03-2: the empty symbol inside a list, pretty, :capitalize (Go index panic)
+	capPretty := with(pretty, func(c *cfg) { c.pcase = "cap" })
+	for _, o := range []slip.Object{
+		slip.List{slip.Symbol("")},
+		slip.List{slip.List{slip.Symbol(""), slip.Symbol("a")}, slip.Symbol("")},
+		slip.NewVector(2, slip.TrueSymbol, nil, slip.List{slip.Symbol(""), slip.Fixnum(1)}, false),
+		slip.List{slip.Symbol("x"), slip.Tail{Value: slip.Symbol("")}},
+	} {
+		out = append(out, repairedCase{"C03-2", capPretty, o})
+		out = append(out, repairedCase{"C03-2", with(capPretty, func(c *cfg) { c.margin = 3 }), o})
+	}
+	// C03-3: names that read as numbers, alone and in lists, flat (in a pretty list the bars are still dropped)
+	for _, name := range []string{"123", "-5", "+7", "1.", "1.5", "1e5", "1E5", "1d0", "2s3", "1f0", "1l0", "1L0", "-1.5e-3", "1/2", "-3/4", "1/0", "+", "-", "1+", "-a", "1e", "0", "00", "9223372036854775808"} {
+		for _, c := range []cfg{flat, with(flat, func(c *cfg) { c.pcase = "up" }), with(flat, func(c *cfg) { c.base, c.radix = 16, true }), pretty} {
+			out = append(out, repairedCase{"C03-3", c, slip.Symbol(name)})
+			if !c.pretty {
+				out = append(out, repairedCase{"C03-3", c, slip.List{slip.Symbol(name), slip.Symbol("x"), slip.Symbol(name)}})
+			}
+		}
+	}
+	// C03-4: symbols that need bars inside lists, vectors, dotted pairs and arrays under *print-pretty* t, any margin;
+	// & in first place and / keep their plain spelling
+	barNames := []string{"a b", "", "(", ")", "a(b", "'", "\"", ";", "#", ",x", "`", "a&b", "&", "&rest", "&key", "/", "/=", "a/b", "1/2", "123", "-5", "A B", "{", "[x]", "!"}
+	for i, name := range barNames {
+		other := barNames[(i+7)%len(barNames)]
+		for _, c := range []cfg{pretty, with(pretty, func(c *cfg) { c.margin = 4 }), with(pretty, func(c *cfg) { c.pcase = "cap"; c.margin = 1 }), with(pretty, func(c *cfg) { c.pcase = "up"; c.base, c.radix = 2, true })} {
+			out = append(out, repairedCase{"C03-4", c, slip.List{slip.Symbol(name), slip.Symbol("c")}})
+			out = append(out, repairedCase{"C03-4", c, slip.List{slip.Symbol("x"), slip.List{slip.Symbol(other), slip.Symbol(name)}, slip.Tail{Value: slip.Symbol(name)}}})
+			out = append(out, repairedCase{"C03-4", c, slip.NewVector(2, slip.TrueSymbol, nil, slip.List{slip.Symbol(name), slip.Symbol(other)}, false)})
+		}
+	}
+	out = append(out, repairedCase{"C03-4", pretty, slip.NewArray([]int{2, 2}, slip.TrueSymbol, nil,
+		slip.List{slip.List{slip.Symbol("a b"), slip.Symbol("")}, slip.List{slip.Symbol("("), slip.Symbol("&rest")}}, false)})
+	// C03-5: | \ and control characters inside names that get bars
+	for _, name := range []string{"a|b", "|", "||", "a\\b", "\\", "\\|", "|\\", "a\x01b", "\x00", "\x1f x", "a\tb|", "a\nb\\", "\x7f|", "a b\\n", "\\u0041 x", "x|y|z", "A|B c"} {
+		for _, c := range []cfg{flat, pretty, with(flat, func(c *cfg) { c.pcase = "up" }), with(pretty, func(c *cfg) { c.pcase = "cap"; c.margin = 5 }), with(flat, func(c *cfg) { c.pcase = "none"; c.readably = false })} {
+			out = append(out, repairedCase{"C03-5", c, slip.Symbol(name)})
+			out = append(out, repairedCase{"C03-5", c, slip.List{slip.Symbol(name), slip.Symbol("x"), slip.Tail{Value: slip.Symbol(name)}}})
+		}
+	}
+	// C03-6: keywords whose names need bars
+	for _, name := range []string{":a b", ":", ":a", ":(", ":a|b", ":a\\", ":1", ":a;b", ": ", "::", ":A B", ":a'b", ":\"", ":a\x02"} {
+		for _, c := range []cfg{flat, pretty, with(pretty, func(c *cfg) { c.pcase = "up"; c.margin = 2 }), with(flat, func(c *cfg) { c.pcase = "cap" })} {
+			out = append(out, repairedCase{"C03-6", c, slip.Symbol(name)})
+			out = append(out, repairedCase{"C03-6", c, slip.List{slip.Symbol(name), slip.Symbol(":k"), slip.Symbol(name)}})
+		}
+	}
+	// C03-7: ? in a name
+	for _, name := range []string{"a?", "?", "??", "null?", "?x", "A?b", ":key?"} {
+		for _, c := range []cfg{flat, pretty, with(pretty, func(c *cfg) { c.pcase = "up"; c.margin = 2 })} {
+			out = append(out, repairedCase{"C03-7", c, slip.Symbol(name)})
+			out = append(out, repairedCase{"C03-7", c, slip.List{slip.Symbol(name), slip.Symbol("x"), slip.Symbol(name)}})
+		}
+	}
+	// C03-8: non-ASCII names, *print-case* nil (inside the guard) and with a conversion (caseless scripts: the model's
+	// ASCII caseName agrees with strings.ToUpper / ToLower on them)
+	for _, name := range []string{"é", "日本", "—x", "a é", "x日", "日 本", "λ|", "\xffa", "a\x80", "ß", "É", "Ünï", "日本語-x", "𝄢"} {
+		for _, c := range []cfg{with(flat, func(c *cfg) { c.pcase = "none" }), with(pretty, func(c *cfg) { c.pcase = "none"; c.margin = 6 })} {
+			out = append(out, repairedCase{"C03-8", c, slip.Symbol(name)})
+			out = append(out, repairedCase{"C03-8", c, slip.List{slip.Symbol(name), slip.Symbol("x"), slip.Tail{Value: slip.Symbol(name)}}})
+		}
+	}
+	for _, name := range []string{"日本", "—x", "x日", "日 本", "日本語-x", "𝄢"} {
+		for _, c := range []cfg{flat, with(pretty, func(c *cfg) { c.pcase = "up" }), with(flat, func(c *cfg) { c.pcase = "cap" })} {
+			out = append(out, repairedCase{"C03-8", c, slip.List{slip.Symbol(name), slip.Symbol("x")}})
+		}
+	}
+	// C03-9: the symbol named . in every place of a list and as the tail of a dotted pair
+	dot, a, b := slip.Symbol("."), slip.Symbol("a"), slip.Symbol("b")
+	for _, o := range []slip.Object{dot, slip.List{a, dot, b}, slip.List{dot, a, b}, slip.List{a, b, dot}, slip.List{dot}, slip.List{dot, dot, dot},
+		slip.List{a, slip.Tail{Value: dot}}, slip.List{a, dot, slip.Tail{Value: b}}, slip.List{slip.Symbol(".."), slip.Symbol("..."), slip.Symbol("a.b")},
+		slip.NewVector(3, slip.TrueSymbol, nil, slip.List{a, dot, b}, false)} {
+		for _, c := range []cfg{flat, pretty, with(pretty, func(c *cfg) { c.pcase = "up"; c.margin = 2 })} {
+			out = append(out, repairedCase{"C03-9", c, o})
+		}
+	}
+	// C03-10: symbols named nil in any case next to the empty list
+	for _, o := range []slip.Object{slip.Symbol("nil"), slip.Symbol("NIL"), slip.Symbol("Nil"), slip.Symbol("nIL"),
+		slip.List{slip.Symbol("nil"), nil, slip.Symbol("NIL"), slip.Symbol("nile"), slip.Symbol("ni")},
+		slip.List{nil, slip.Tail{Value: slip.Symbol("Nil")}}, slip.NewVector(2, slip.TrueSymbol, nil, slip.List{slip.Symbol("nil"), nil}, false)} {
+		for _, c := range []cfg{flat, pretty, with(pretty, func(c *cfg) { c.pcase = "up"; c.margin = 2 }), with(flat, func(c *cfg) { c.pcase = "cap" }), with(flat, func(c *cfg) { c.pcase = "none" })} {
+			out = append(out, repairedCase{"C03-10", c, o})
+		}
+	}
+	// C03-11: names that begin with @ (a time for the reader when bare)
+	for _, name := range []string{"@2024-01-02", "@2024-01-02T10:11:12", "@2024-01-02T10:11:12Z", "@2024-01-02T10:11:12.5+01:00", "@x", "@", "@@", "a@b", "x@", "@ a"} {
+		for _, c := range []cfg{flat, pretty, with(pretty, func(c *cfg) { c.pcase = "up"; c.margin = 2 })} {
+			out = append(out, repairedCase{"C03-11", c, slip.Symbol(name)})
+			out = append(out, repairedCase{"C03-11", c, slip.List{slip.Symbol("x"), slip.Symbol(name), slip.Tail{Value: slip.Symbol(name)}}})
+		}
+	}
+	// C03-12: the NUL character, alone, in lists and next to strings holding it
+	for _, o := range []slip.Object{slip.Character(0), slip.List{slip.Character(0), slip.Character('a'), slip.Character(0)},
+		slip.List{slip.String("a\x00b"), slip.Tail{Value: slip.Character(0)}}, slip.NewVector(2, slip.TrueSymbol, nil, slip.List{slip.Character(0), slip.Character(1)}, false)} {
+		for _, c := range []cfg{flat, pretty, with(pretty, func(c *cfg) { c.pcase = "up"; c.margin = 2 }), with(flat, func(c *cfg) { c.readably = false })} {
+			out = append(out, repairedCase{"C03-12", c, o})
+		}
+	}
+	// C03-13: the characters the reader rejects after #\ (the sweep of part A covers every ASCII character alone)
+	var chars slip.List
+	for _, ch := range "!\"$%&'();?[\\]`{}" {
+		chars = append(chars, slip.Character(ch))
+	}
+	for _, c := range []cfg{flat, pretty, with(pretty, func(c *cfg) { c.margin = 9 }), with(flat, func(c *cfg) { c.readably = false; c.pcase = "up" })} {
+		out = append(out, repairedCase{"C03-13", c, chars})
+		out = append(out, repairedCase{"C03-13", c, slip.NewVector(len(chars), slip.TrueSymbol, nil, chars, false)})
+		out = append(out, repairedCase{"C03-13", c, slip.List{slip.Character('('), slip.Tail{Value: slip.Character(')')}}})
+	}
+	// C03-14: arrays of rank 2, 3 and 10 under every kind of radix prefix and in bases where the rank has a letter
+	mk := func(dims []int) slip.Object {
+		n := 1
+		for _, d := range dims {
+			n *= d
+		}
+		var build func(di, base int) slip.List
+		build = func(di, base int) slip.List {
+			l := make(slip.List, dims[di])
+			stride := 1
+			for _, d := range dims[di+1:] {
+				stride *= d
+			}
+			for i := range l {
+				if di == len(dims)-1 {
+					l[i] = slip.Fixnum(int64(base + i - 3))
+				} else {
+					l[i] = build(di+1, base+i*stride)
+				}
+			}
+			return l
+		}
+		return slip.NewArray(dims, slip.TrueSymbol, nil, build(0, 0), false)
+	}
+	for _, dims := range [][]int{{2, 2}, {1, 3}, {2, 1, 2}, {1, 1, 1, 1, 1, 1, 1, 1, 1, 2}, {1, 1, 1, 1, 1, 1, 1, 1, 1, 1, 1, 1, 1, 1, 1, 1, 3}} {
+		for _, c := range []cfg{with(flat, func(c *cfg) { c.radix = true }), with(flat, func(c *cfg) { c.base, c.radix = 2, true }), with(pretty, func(c *cfg) { c.base, c.radix = 16, true }),
+			with(pretty, func(c *cfg) { c.base, c.radix, c.margin = 8, true, 7 }), with(flat, func(c *cfg) { c.base, c.radix = 36, true }), with(flat, func(c *cfg) { c.base = 16 }), with(flat, func(c *cfg) { c.base = 3 })} {
+			out = append(out, repairedCase{"C03-14", c, mk(dims)})
+			out = append(out, repairedCase{"C03-14", c, slip.List{mk(dims), slip.Symbol("x")}})
+		}
+	}
+	return
+}
+
 func firstValue(o slip.Object) slip.Object {
 	if vs, ok := o.(slip.Values); ok {
 		if len(vs) == 0 {
@@ -942,9 +1091,15 @@ func Run(ctx *common.Ctx) {
 		descs = append(descs, d)
 		ctx.Hist("wire:message")
 	}
+	// part E: the inputs of repaired findings (repo_fixes C03-2 ...), under the configurations that used to fail
+	for _, rc := range repairedCases() {
+		add(rc.c, rc.o, false)
+		add(rc.c, rc.o, true)
+		ctx.Hist("repaired:" + rc.id)
+	}
 	_ = utf8.RuneError
 	ctx.Meta.DistinctNontrivial = len(distinct)
-	ctx.Meta.Rule = "part A: every ASCII character and 15 boundary scalars as a character, inside a string, as a symbol name alone and in a list, under a flat readable and a pretty configuration; part B: integers (boundary, small, int64, up to 200 bits, base^k-1) in every base 2..36 with and without *print-radix*; part C: random objects (depth <= 3, lists, dotted lists, vectors, arrays of rank 2-3; integers, ratios, floats of the three formats, strings and characters over 24 scalar classes, 100 listed symbol names incl. ones needing |quoting| plus random ASCII names, nil, t) x random printer configuration (base 2..36, radix, case 4 values, pretty, right margin 1..200 or nil, readably, escape, array); 40% of the pairs go through write-to-string with every keyword and read-from-string; distinct = distinct (configuration, object, text, read-back) terms"
+	ctx.Meta.Rule = "part A: every ASCII character and 15 boundary scalars as a character, inside a string, as a symbol name alone and in a list, under a flat readable and a pretty configuration; part B: integers (boundary, small, int64, up to 200 bits, base^k-1) in every base 2..36 with and without *print-radix*; part C: random objects (depth <= 3, lists, dotted lists, vectors, arrays of rank 2-3; integers, ratios, floats of the three formats, strings and characters over 24 scalar classes, 100 listed symbol names incl. ones needing |quoting| plus random ASCII names, nil, t) x random printer configuration (base 2..36, radix, case 4 values, pretty, right margin 1..200 or nil, readably, escape, array); 40% of the pairs go through write-to-string with every keyword and read-from-string; part E: for each of the thirteen repaired findings (repo_fixes C03-2..C03-14) objects of the shape that used to fail under the configurations that failed (number-like names, names needing bars in nested pretty lists under small margins, | \\ and control bytes, keywords, ?, non-ASCII names, the dot in every list position, nil/NIL, @-names, NUL, the sixteen characters printed by code, arrays of rank 2..17 under every radix prefix), each through Printer.Append and through write-to-string; distinct = distinct (configuration, object, text, read-back) terms"
 	header := "From C03 Require Import Model Spec Corr.\nLocal Open Scope N_scope.\n"
 	footer := "Definition res := Eval vm_compute in check_all cases.\nPrint res.\nDefinition gcount := Eval vm_compute in guard_count cases.\nPrint gcount.\nDefinition outside := Eval vm_compute in outside_failures cases.\nPrint outside.\nDefinition textdiff := Eval vm_compute in text_differences cases.\nPrint textdiff.\nDefinition drift := Eval vm_compute in drift_outside_guard cases.\nPrint drift.\n"
 	ctx.WriteShards("cases", header, "case", footer, terms, descs, 16)
